@@ -10,7 +10,8 @@ Mth(file, verb, route, hidden, deprecated, sec) ==
     [file |-> file, verb |-> verb, route |-> route, hidden |-> hidden, deprecated |-> deprecated, sec |-> sec,
      ret |-> <<"error">>, errors |-> <<>>, response |-> 0, desc |-> ""]
 
-SecShapes == { <<>>, <<S("s1", <<>>)>>, <<S("s1", <<"r">>), S("s2", <<"w", "x">>)>>, <<S("s2", <<>>), S("s2", <<"r">>)>>, <<S("s2", <<"w">>), S("s1", <<>>)>> }
+SecShapes == { <<>>, <<S("s1", <<>>)>>, <<S("s1", <<"r">>), S("s2", <<"w", "x">>)>>, <<S("s2", <<>>), S("s2", <<"r">>)>>, <<S("s2", <<"w">>), S("s1", <<>>)>>,
+               <<S("s2", <<"w", "x", "r", "w">>)>> }        \* (a scope listed twice among others: lists are kept as written)
 SecShapesU == SecShapes \cup { <<S("s9", <<>>)>>, <<S("S1", <<"r">>)>> }       \* s9 is never declared; nor is S1 (names are case-sensitive)
 
 \* ---- C04: one route, every combination of the three security levels, enforce, default, declared/undeclared -------------
@@ -253,7 +254,10 @@ CtrlsC09 == { Ctl("p1", "f1", "AController", "/a", "A", <<>>), Ctl("p2", "f2", "
 \* the same parameter NAME with types from different packages, in different controllers, at the same ordinal
 MethodsC09 == { MthP("POST", ps, ret, <<>>, 0) :
                   ps \in { <<Prm("item", t, "Body", "", "")>> : t \in {"p1.Item", "p2.Line", "p1.Order", "[]p2.Line", "*p1.Item", "[]p1.Item"} }
-                       \cup { <<Prm("item", t, "Query", "", "")>> : t \in {"p1.Color", "p2.Level", "p2.Code", "[]p1.Color", "p1.Shade"} },
+                       \cup { <<Prm("item", t, "Query", "", "")>> : t \in {"p1.Color", "p2.Level", "p2.Code", "[]p1.Color", "p1.Shade"} }
+                       \* Go names that a case converter would respell (consecutive capitals, underscore, leading capital)
+                       \cup { <<Prm(n, t, "Query", "", "")>> : n \in {"orgID", "sort_by", "Xy"}, t \in {"p1.Color", "p2.Level"} }
+                       \cup { <<Prm(n, "p2.Line", "Body", "", "")>> : n \in {"itemDTO", "req_body"} },
                   ret \in { <<"error">>, <<"p1.Item", "error">>, <<"p2.Line", "error">>, <<"[]p1.Order", "error">>, <<"*p2.Line", "error">>, <<"p2.Level", "error">> } }
 \* an enum two of whose constants share a value (a 'default' member mirroring another one)
 TDup == Ty("p1", "Shade", "enum", "string", <<>>, <<Con("ShadeDark", "\"dark\""), Con("ShadeLight", "\"light\""), Con("ShadeDefault", "\"dark\""), Con("ShadeMid", "\"mid\"")>>)
